@@ -351,6 +351,7 @@ func c13(r *core.Report) {
 	c13Close(r)
 	c13SecondPass(r)
 	c13Captured(r)
+	settingsReadOnly(r, "C13.settingsro")
 	p := r.Prog
 	pk := p.Pkg("openapi3filter")
 	info := pk.TypesInfo
@@ -1286,5 +1287,59 @@ func c13Captured(r *core.Report) {
 			r.Check(bad == "", key, p.Pos(since), o.Name()+" changes only after the call that produces its new value succeeded", fmt.Sprintf("%s, which the installed GetBody reads, is assigned together with an error at %s: when that call fails, %s holds the call's zero result and the request returned with the error has lost its body", o.Name(), bad, o.Name()))
 		}
 		_ = n
+	})
+}
+
+// settingsReadOnly: one settings object is shared by every nested visit of a validation (and the
+// sync.Once in it decides whether the caller hears about defaults). A visitor that assigns a field of
+// it, even for the duration of a sub-visit, changes the validation for everything visited meanwhile
+// and afterwards.
+func settingsReadOnly(r *core.Report, rule string) {
+	p := r.Prog
+	info := p.Pkg("openapi3").TypesInfo
+	r.RunRule(rule, "validation settings are read-only during a visit: no function of package openapi3 assigns a field of a schemaValidationSettings value outside the option constructors (function literals of type SchemaValidationOption) and newSchemaValidationSettings — a visitor that swaps settings.defaultsSet for the duration of a sub-visit lets that sub-visit spend the sync.Once on its substitute, and the defaults written into the real value afterwards are never reported, so the body is forwarded without them", 0, func() {
+		st := p.NamedType("openapi3", "schemaValidationSettings")
+		optT := p.NamedType("openapi3", "SchemaValidationOption")
+		n := 0
+		for _, d := range p.AllDecls("openapi3") {
+			if d.Body == nil || d.Name.Name == "newSchemaValidationSettings" {
+				continue
+			}
+			k := 0
+			var visit func(nd ast.Node) bool
+			visit = func(nd ast.Node) bool {
+				if fl, ok := nd.(*ast.FuncLit); ok {
+					// an option constructor's closure
+					if len(fl.Type.Params.List) == 1 {
+						if pt, ok := info.TypeOf(fl.Type.Params.List[0].Type).(*types.Pointer); ok && core.NamedOf(pt) == st {
+							_ = optT
+							return false
+						}
+					}
+					return true
+				}
+				as, ok := nd.(*ast.AssignStmt)
+				if !ok {
+					return true
+				}
+				for _, l := range as.Lhs {
+					sel, ok := ast.Unparen(l).(*ast.SelectorExpr)
+					if !ok {
+						continue
+					}
+					if core.NamedOf(info.TypeOf(sel.X)) != st {
+						continue
+					}
+					n++
+					k++
+					r.Bad(fmt.Sprintf("settingsro:%s#%d(%s)", core.FuncName(d), k, sel.Sel.Name), p.Pos(as.Pos()), fmt.Sprintf("%s assigns settings.%s while a validation is under way: the settings object is the one every nested and later visit of this validation reads (and its sync.Once fires once for all of them)", core.FuncName(d), sel.Sel.Name))
+				}
+				return true
+			}
+			ast.Inspect(d.Body, visit)
+		}
+		if n == 0 {
+			r.Trivial("settingsro:none", "-", "no field of the validation settings is assigned outside the option constructors")
+		}
 	})
 }
